@@ -51,6 +51,7 @@ import (
 	"github.com/siglens/siglens/pkg/hooks"
 	segmetadata "github.com/siglens/siglens/pkg/segment/metadata"
 	"github.com/siglens/siglens/pkg/segment/query"
+	"github.com/siglens/siglens/pkg/segment/reader/segread"
 	"github.com/siglens/siglens/pkg/segment/writer"
 )
 
@@ -539,7 +540,22 @@ func (w *c11World) checkQuery(q *c11Query, name string) {
 			w.fail("conc-replay/count-below-flushed", fmt.Sprintf("%s counted %d events, %d had been flushed before its first step", name, q.count, q.preN))
 		}
 		if q.count > int64(q.flushedAtEnd) {
-			w.fail("conc-replay/count-exceeds-ingested", fmt.Sprintf("%s counted %d events, only %d had been ingested when it finished (events counted twice)", name, q.count, q.flushedAtEnd))
+			// witness class: is some segment key in both of the query's segment lists (as the product hook saw them)?
+			sig := "conc/count-exceeds-ingested"
+			both := ""
+			if len(q.snaps) >= 2 {
+				in0 := map[string]bool{}
+				for _, k := range q.snaps[0] {
+					in0[k] = true
+				}
+				for _, k := range q.snaps[1] {
+					if in0[k] {
+						sig = "conc/counted-twice/segment-in-both-snapshots"
+						both = w.nameOf(k)
+					}
+				}
+			}
+			w.fail(sig, fmt.Sprintf("%s (`* | stats count`) counted %d events, only %d had been ingested when it finished; segment in both the unrotated and the rotated request list: %q", name, q.count, q.flushedAtEnd, both))
 		}
 	}
 }
@@ -547,6 +563,10 @@ func (w *c11World) checkQuery(q *c11Query, name string) {
 func c11WorkerMain() {
 	in := bufio.NewReader(os.Stdin)
 	line, _ := in.ReadString('\n')
+	if win, ok := c11ParseWindow(strings.TrimSpace(line)); ok {
+		c11WindowReplay(win)
+		return
+	}
 	S, labels, ok := c11Parse(strings.TrimSpace(line))
 	if !ok {
 		fmt.Println("bad-op")
@@ -693,6 +713,136 @@ func c11WorkerMain() {
 	}
 }
 
+// ---------------------------------------------------------------- check-then-look-up windows of the read path
+//
+//	c11w ssr | c11w reader
+//
+// NOT a schedule of the model (the model treats the read of a request as one step — declared in `partial`):
+// a deterministic replay of "a rotation completes between the read path's `IsSegKeyUnrotated` check and the
+// look-up that follows it under a second lock".  Two indexes get one flushed block each; a match-all records
+// query runs until the instrumented copy stops it after the check for index 0's segment (ssr:
+// query.GetSSRsFromQSR before ExtractUnrotatedSSRFromSearchNode; reader: segread.initNewMultiColumnReader
+// before GetBlockSearchInfoForKey); the whole rotation of index 0 runs; the query resumes.  The property
+// demands: no crash, every event (all were flushed before the query began) returned exactly once.
+// Answer: ok | lost (no event of the rotated segment returned) | crash (the worker process died) — the Oracle
+// prints the outcome of the ReadOne machine of Model/Conc.lean for the same window; "window-not-reached" if the
+// query never came to the pause point.
+
+func c11ParseWindow(line string) (string, bool) {
+	f := strings.Fields(line)
+	if len(f) == 2 && f[0] == "c11w" && (f[1] == "ssr" || f[1] == "reader") {
+		return f[1], true
+	}
+	return "", false
+}
+
+func c11WindowReplay(win string) {
+	instrumented, problem := query.VerifC11Instrumented, query.VerifC11Problem
+	if win == "reader" {
+		instrumented, problem = segread.VerifC11Instrumented, segread.VerifC11Problem
+	}
+	if !instrumented {
+		fmt.Println("not-instrumented: " + problem)
+		return
+	}
+	dir := bootEngine()
+	defer os.RemoveAll(dir)
+	w := &c11World{S: 2, segNames: map[string]string{}, vidBlock: map[int]string{}, queries: map[int]*c11Query{}, nextQid: 2000}
+	for i := 0; i < 2; i++ {
+		w.index = append(w.index, fmt.Sprintf("c11s%d", i))
+		w.segOrder = append(w.segOrder, nil)
+	}
+	w.ingestAndFlush(0)
+	w.ingestAndFlush(1)
+	key0, _, _ := writer.VerifC11StoreInfo(w.index[0])
+	q := &c11Query{id: 0, qid: 2001, events: make(chan c11Event, 4), pre: map[int]bool{}}
+	for _, v := range w.flushedVids {
+		q.pre[v] = true
+	}
+	q.preN = len(w.flushedVids)
+	reached := make(chan string, 1)
+	resume := make(chan struct{})
+	var once sync.Once
+	hook := func(point string, segkey string, qid uint64) {
+		if qid != q.qid || segkey != key0 {
+			return
+		}
+		fire := false
+		once.Do(func() { fire = true })
+		if fire {
+			reached <- point
+			<-resume
+		}
+	}
+	if win == "ssr" {
+		query.VerifC11Pause = hook
+	} else {
+		segread.VerifC11Pause = hook
+	}
+	go w.runQuery(q)
+	select {
+	case <-reached:
+	case <-q.events:
+		fmt.Println("window-not-reached")
+		return
+	case <-time.After(60 * time.Second):
+		fmt.Println("worker-stall")
+		return
+	}
+	if err := writer.VerifC11RotateIndex(w.index[0]); err != nil {
+		fmt.Println("rotation-error " + err.Error())
+		return
+	}
+	if uk, _ := writer.VerifC11Unrotated(); len(uk) != 1 {
+		fmt.Println("rotation-did-not-complete")
+		return
+	}
+	resume <- struct{}{}
+	select {
+	case <-q.events:
+	case <-time.After(60 * time.Second):
+		fmt.Println("worker-stall")
+		return
+	}
+	q.flushedAtEnd = len(w.flushedVids)
+	if q.err != "" {
+		w.fail("conc/read-window/query-error", "rotation between the unrotated check and the look-up ("+win+"): "+q.err)
+	} else {
+		seen := map[int]int{}
+		for _, v := range q.vids {
+			seen[v]++
+		}
+		for _, v := range w.flushedVids {
+			if seen[v] == 0 {
+				w.fail("conc/read-window/flushed-event-missing", fmt.Sprintf("rotation between the unrotated check and the look-up (%s): the query returned %d of %d events; event %d (block %s), flushed before the query began, is missing", win, len(q.vids), len(w.flushedVids), v, w.vidBlock[v]))
+				break
+			}
+		}
+		for v, c := range seen {
+			if c > 1 {
+				w.fail("conc/read-window/event-returned-twice", fmt.Sprintf("event %d returned %d times", v, c))
+				break
+			}
+		}
+	}
+	// canonical answer: what happened to the events of the rotated segment
+	seen0 := 0
+	for _, v := range q.vids {
+		if strings.HasPrefix(w.vidBlock[v], "0.") {
+			seen0++
+		}
+	}
+	if q.err == "" && seen0 == 0 {
+		fmt.Println("lost")
+	} else {
+		fmt.Println("ok")
+	}
+	for _, f := range w.fails {
+		b, _ := json.Marshal(f)
+		fmt.Println("FAIL " + string(b))
+	}
+}
+
 // ---------------------------------------------------------------- suite "conc"
 
 func c11SpawnWorker(args []string, stdin string, env []string, timeout time.Duration) (string, string, error, bool) {
@@ -721,7 +871,7 @@ func c11CrashFrame(stderr string) string {
 	for _, l := range strings.Split(stderr, "\n") {
 		l = strings.TrimSpace(l)
 		if strings.HasPrefix(l, "github.com/siglens/siglens/pkg/") {
-			if i := strings.IndexByte(l, '('); i > 0 {
+			if i := strings.LastIndexByte(l, '('); i > 0 {
 				l = l[:i]
 			}
 			return strings.TrimPrefix(l, "github.com/siglens/siglens/")
@@ -732,14 +882,18 @@ func c11CrashFrame(stderr string) string {
 
 func execConc(line string) Result {
 	_, labels, ok := c11Parse(line)
-	if !ok {
+	win, isWin := c11ParseWindow(strings.TrimSpace(line))
+	if !ok && !isWin {
 		return Result{Out: "bad-op", Tags: []string{"malformed"}}
 	}
 	out, stderr, err, timedOut := c11SpawnWorker([]string{"c11worker", "x"}, line+"\n", []string{"GOMEMLIMIT=2GiB", "GOMAXPROCS=4"}, 150*time.Second)
 	if timedOut {
 		return Result{Out: "worker-timeout", Fails: []PropFail{{Sig: "conc-replay/worker-timeout", Msg: "replay worker did not finish within 150 s"}}, Nontrivial: true}
 	}
-	res := Result{Nontrivial: len(labels) >= 3}
+	res := Result{Nontrivial: len(labels) >= 3 || isWin}
+	if isWin {
+		res.Tags = append(res.Tags, "read-window-"+win)
+	}
 	var first string
 	for _, l := range strings.Split(strings.TrimSpace(out), "\n") {
 		if strings.HasPrefix(l, "FAIL ") {
@@ -747,17 +901,21 @@ func execConc(line string) Result {
 			if json.Unmarshal([]byte(l[5:]), &pf) == nil {
 				res.Fails = append(res.Fails, pf)
 			}
-		} else if first == "" && (strings.HasPrefix(l, "steps=") || strings.HasPrefix(l, "worker-stall") || strings.HasPrefix(l, "not-instrumented") || l == "bad-op") {
+		} else if first == "" && (strings.HasPrefix(l, "steps=") || strings.HasPrefix(l, "worker-stall") || strings.HasPrefix(l, "not-instrumented") || l == "bad-op" ||
+			l == "ok" || l == "lost" || l == "window-not-reached" || strings.HasPrefix(l, "rotation-")) {
 			first = l
 		}
 	}
 	if first == "" {
 		first = "worker-crash"
+		if isWin {
+			first = "crash" // the Oracle's word for it
+		}
 		msg := ""
 		if err != nil {
 			msg = err.Error()
 		}
-		res.Fails = append(res.Fails, PropFail{Sig: "conc-replay/crash@" + c11CrashFrame(stderr), Msg: "replay worker died: " + msg + " " + trunc(stderr, 600)})
+		res.Fails = append(res.Fails, PropFail{Sig: "conc/crash@" + c11CrashFrame(stderr), Msg: "replay worker died: " + msg + " " + trunc(stderr, 600)})
 	}
 	if strings.HasPrefix(first, "worker-stall") {
 		res.Fails = append(res.Fails, PropFail{Sig: "conc-replay/stall", Msg: "a scheduled step did not complete (protocol step blocked on a lock held by a paused thread?)"})
@@ -788,6 +946,9 @@ func execConc(line string) Result {
 
 // schedules that matter, always first
 var c11Fixed = []string{
+	// read-path windows (outside the model, see c11WindowReplay)
+	"c11w ssr",
+	"c11w reader",
 	"c11 1 f0 q0r q0r q0r",
 	"c11 1 f0 r0 r0 r0 r0 q0r q0r q0r",
 	// the at-most-once counterexample of Props/C11.lean: first snapshot, the rotation publishes the segment, second snapshot
